@@ -230,7 +230,7 @@ func init() {
 		},
 		Gen: func(r *Rng, tier string) *genProfile {
 			return &genProfile{MaxSteps: steps(tier, 40, 100), Default: 0, FollowUp: 60, Template: 40,
-				Templates: []string{"remember_cycle", "remember_cycle", "oauth_remember", "oauth_stale_params", "forged_cookie", "cookie_at_validate", "remember_then_reset", "recover_flow", "login_ok"},
+				Templates: []string{"remember_cycle", "remember_cycle", "oauth_remember", "oauth_stale_params", "forged_cookie", "cookie_at_validate", "remember_then_reset", "recover_flow", "login_ok", "cookie_rotation_fails"},
 				Weights: withW(loginWeights, map[string]int{"probe": 14, "drop_session": 10, "copy_cookie": 5, "stale_cookie": 7, "set_cookie": 3, "logout": 6,
 					"op_update_password": 3, "register": 1, "confirm": 1}),
 				BadSecret: 30, ThreshGaps: 5, SmallGaps: 20, FaultRate: []int{0, 0, 60}[r.Intn(3)]}
@@ -602,6 +602,10 @@ func init() {
 				c.dropSetups("expire")
 			}
 			c.ensureModules("confirm", "recover")
+			c.SlowMail = r.Chance(1, 3)
+			if c.SlowMail {
+				c.MailNoGoroutine = false
+			}
 			if r.Chance(1, 2) {
 				c.dropModules("lock")
 			}
@@ -609,7 +613,7 @@ func init() {
 		},
 		Gen: func(r *Rng, tier string) *genProfile {
 			return &genProfile{MaxSteps: steps(tier, 40, 100), Default: 1, FollowUp: 60, Template: 35,
-				Templates: []string{"recover_flow", "confirm_flow", "token_near_miss", "register_flow", "otp_flow", "remember_cycle", "enroll_totp", "everify_link_elsewhere", "login_ok"},
+				Templates: []string{"recover_flow", "confirm_flow", "token_near_miss", "register_flow", "otp_flow", "remember_cycle", "enroll_totp", "everify_link_elsewhere", "login_ok", "cookie_rotation_fails"},
 				Weights:   loginWeights, BadSecret: 40, ThreshGaps: 10, SmallGaps: 20, FaultRate: 60, Redir: 5, WrongJSONTypes: true}
 		},
 		Oracle:        newC17Oracle,
